@@ -15,6 +15,17 @@ add("C07", "E2", "model_checking", "bounded exhaustive enumeration of payloads x
 add("C16", "E2", "model_checking", "bounded exhaustive enumeration of payload x capacity x follow-up frame on the real decoder under the receiver monitor",
     "every payload up to length 6 (quick) / 8 (thorough) x every capacity 0..|p|+1 x three follow-up frames through Decoder, decode_streaming and SmlReader with that static buffer, plus the 8 KiB default buffer at 8191/8192/8193 bytes; N>=|p| must deliver at the last byte, N<|p| must give OutOfMemory, never a payload, and the follow-up frame must be delivered", "§6 C16")
 
+add("C02", "E1", "model_checking", "explicit-state BFS over the product (real Decoder state x receiver monitor) with state-adaptive checksum symbols and exact-state dedup",
+    "all operation strings over 6 byte classes + state-adaptive CRC bytes + macro symbols + finalize/reset up to depth 6 (quick, 1.4e7 states) / 7 (thorough, 2e8 states) from new() and new()+start sequence, Vec and tiny fixed buffers; on every Ok(m) the raw bytes since the start sequence must equal the spec-level frame of m", "§6 C02")
+add("C05", "E1", "model_checking", "explicit-state BFS of the real Decoder with all operations incl. finalize/reset over 8 buffer kinds, plus stateless enumeration of short paths containing long-run symbols (254..65537 bytes)",
+    "every interleaving of push_byte/finalize/reset up to depth 6/8 (Vec) and 5/7 (ArrayBuf<0,1,2,3,4,5,8>) with overflow checks on; every path of length <=4/5 containing one run of 254..65537 identical bytes; encoders and all front-ends on payloads beyond 2^16; oracle: no panic, no hang, errors as values and the object stays usable (exploration continues from every error state)", "§6 C05")
+add("C08", "E1", "model_checking", "explicit-state BFS of the idle phase over all noise strings (merged by state) + exhaustive directed enumeration history x noise x frame and cut-off frames",
+    "(a) every noise string over the 6 byte classes up to length 16/24 from 9-10 idle histories, merged by (decoder snapshot, scanner state, count): the discarded report must come exactly at the byte completing the first start sequence and the decoder must then behave as new()+start; (b) 11 idle histories x every admissible noise string up to length 4/6 x 31 payloads through all front-ends; (c) every payload up to length 4/5 cut at every neutral offset followed by a frame", "§6 C08")
+add("C14", "E1", "model_checking", "explicit-state BFS collecting every distinct boundary state, then exhaustive lock-step differential continuation of each against a new decoder",
+    "every distinct full decoder snapshot reached right after Ok/InvalidMessage/InvalidEsc/OutOfMemory/reset/finalize within depth 6/8 (1.6e5 boundary states over 8 buffer kinds in quick) x every continuation of <=2/3 symbols over 23 symbols incl. whole frames and pad-lying frames, CRC bytes adapted to either side: outputs must be identical call by call; branches are closed only on full state equality", "§6 C14")
+add("C17", "E1", "model_checking", "explicit-state BFS of the real Decoder under the byte-accounting monitor, plus long-run paths (and, thorough, the same in a build without overflow checks)",
+    "every discarded-bytes report, finalize/reset result and frame boundary on every explored transition (same space as C05) must tile the input: count == bytes since the previous boundary minus the start sequence; runs of 65534..65537 bytes before a start sequence, before finalize and inside a frame", "§6 C17")
+
 PENDING = {
 }
 ALL = ["C%02d" % i for i in range(1, 19)]
